@@ -725,7 +725,8 @@ class ModuleVistor(NodeVisitor):
             return
 
         if obj is not None:
-            obj.docstring = docstring
+            # Lone surrogates cannot be encoded to UTF-8, see astutils.extract_docstring().
+            obj.docstring = docstring.encode('utf-8', 'backslashreplace').decode('utf-8')
             # TODO: It might be better to not perform docstring parsing until
             #       we have the final docstrings for all objects.
             obj.parsed_docstring = None
